@@ -73,10 +73,28 @@ def isfloat(x):
   return isinstance(x, (float, np.floating)) or is_fp(x)
 
 
+_FLUSHED = {}      # id of a term -> its flushed form (kept alive so ids stay unique)
+_IS_FLUSHED = set()
+
+
 def ftz(x):
   if not FTZ or not is_fp(x):
     return x
-  return z3.If(z3.fpIsSubnormal(x), z3.If(z3.fpIsNegative(x), z3.fpMinusZero(F32), z3.fpPlusZero(F32)), x)
+  k = x.get_id()
+  if k in _IS_FLUSHED:
+    return x
+  hit = _FLUSHED.get(k)
+  if hit is not None:
+    return hit[1]
+  if z3.is_fp_value(x):
+    r = x
+    if x.isSubnormal():
+      r = z3.fpMinusZero(F32) if x.isNegative() else z3.fpPlusZero(F32)
+  else:
+    r = z3.If(z3.fpIsSubnormal(x), z3.If(z3.fpIsNegative(x), z3.fpMinusZero(F32), z3.fpPlusZero(F32)), x)
+  _FLUSHED[k] = (x, r)
+  _IS_FLUSHED.add(r.get_id())
+  return r
 
 
 def _cftz(x):
